@@ -70,6 +70,19 @@ _coerce_scheme_options = dict(
 )
 
 
+def _ini_optionxform(key):
+    """ConfigParser option-name transform for the INI format.
+
+    ConfigParser lower-cases option names. That is kept for the scheme and option parts of a key,
+    but the category part of ``category__scheme__option`` is an application-defined string
+    (matched verbatim against the ``category`` argument), so its case is preserved.
+    """
+    parts = key.replace(".", "__").split("__")
+    if len(parts) == 3:
+        return "__".join([parts[0]] + [part.lower() for part in parts[1:]])
+    return key.lower()
+
+
 def _is_handler_registered(handler):
     """detect if handler is registered or a custom handler"""
     return get_crypt_handler(handler.name, None) is handler
@@ -855,6 +868,7 @@ class CryptContext:
         # NOTE: this expects a unicode stream,
         #       and resulting dict will always use native strings.
         p = ConfigParser()
+        p.optionxform = _ini_optionxform
         p.read_file(stream, filename)
         # XXX: could change load() to accept list of items,
         #      and skip intermediate dict creation
@@ -1332,6 +1346,7 @@ class CryptContext:
         .. seealso:: the :ref:`context-serialization-example` example in the tutorial.
         """
         parser = ConfigParser()
+        parser.optionxform = _ini_optionxform
         self._write_to_parser(parser, section)
         buf = StringIO()
         parser.write(buf)
